@@ -271,3 +271,14 @@ reg("C20", "exploration",
     require={"any": {"opens_within_sections": 300, "lookups_exact": 10000, "foreign_archives": 100, "library_written_archives": 100,
                      "archives_with_leaves": 50, "partial_opens": 50, "async_opens": 50,
                      "layouts_with_tile_data_before_a_directory_or_metadata": 20}})
+
+reg("C12", "exploration",
+    "cases = valid inputs of C01/C03/C05/C06/C09: logical archives (written by both writers; all four writer x reader combinations "
+    "compared, None outputs byte-compared, async output judged by the independent reader), foreign and library-written archives "
+    "(sync vs async full and range-filtered opens incl. every tile's bytes; read_directories twins), entry lists x 4 codecs "
+    "(Directory twins both ways; write_directories twins resolved through the reference decoder) and headers. Async code is driven "
+    "by block_on over plain cursors and over the instrumented stream with short transfers and random Pending. Distinct by "
+    "fingerprint of the input; non-trivial = >= 2 tiles/entries. Oracle: the synchronous twin.",
+    require={"any": {"writer_reader_combinations_equal": 200, "none_outputs_byte_identical": 50, "async_outputs_validated": 200,
+                     "full_opens_equal": 300, "partial_opens_equal": 300, "entry_maps_equal": 300, "directories_equal": 200,
+                     "write_directories_equal": 50, "headers_equal": 1000}})
